@@ -7,6 +7,8 @@ import CapyV.Driver.C23
 import CapyV.Driver.Core
 import CapyV.Driver.C26
 import CapyV.Driver.C07
+import CapyV.Driver.C12
+import CapyV.Driver.C24
 open CapyV.Driver
 
 def dispatch (line : String) : String :=
@@ -20,6 +22,9 @@ def dispatch (line : String) : String :=
   | "CORE" :: args => core args
   | "C26" :: args => c26 args
   | "C07" :: args => c07 args
+  | "C12" :: args => c12 args
+  | "C13" :: args => c12 args
+  | "C24" :: args => c24 args
   | _ => "bad-op"
 
 partial def loop (h : IO.FS.Stream) (out : IO.FS.Stream) : IO Unit := do
